@@ -434,6 +434,9 @@ class Program:
                     self.traits[c.name + "::" + t["path"]] = t
                 for k in c.raw["consts"]:
                     self.consts[c.name + "::" + k["path"]] = k
+        # functions the reviewed tree does not have are expanded into their callers (see inline.py)
+        from . import inline
+        inline.normalise(self, os.path.dirname(os.path.dirname(os.path.abspath(__file__))))
 
     def lib_bodies(self, crate=None):
         for b in self.bodies.values():
@@ -457,8 +460,8 @@ class Program:
 
     def closures_of(self, body):
         """closure bodies created (transitively) inside `body`"""
-        pref = body.path + "::{closure#"
-        return [b for b in self.lib_bodies(body.crate) if b.path.startswith(pref) and "::promoted[" not in b.path]
+        prefs = tuple(p + "::{closure#" for p in [body.path] + list(body.raw.get("inlined", [])))
+        return [b for b in self.lib_bodies(body.crate) if b.path.startswith(prefs) and "::promoted[" not in b.path]
 
     def resolve_callee(self, crate, cs):
         """Body of the callee of a call site if it is a workspace function with MIR."""
